@@ -19,7 +19,7 @@ CONSTANTS
     MaxSur = 1
     MaxRo = 1
     MaxComps = {maxc}
-    Fns = {{"one", "two", "id", "neg", "dbl", "inc", "step", "dsum", "add", "sub", "mul", "sel", "cut", "mad"}}
+    Fns = {{"one", "two", "id", "neg", "dbl", "inc", "step", "dsum", "add", "sub", "mul", "sel", "cut", "swp", "mad"}}
     UseData = TRUE
     ForwardRefs = {fwd}
     WithJac = FALSE
@@ -144,6 +144,7 @@ def check_flags(m, scn, order, y, t, rnd) -> dict | None:
 
 def observe_c01(scn: dict) -> dict | None:
     """All C01 entry points at every predicted point. Returns the first disagreement or None."""
+    import numpy as np
     import pandas as pd
 
     c = scn["c"]
@@ -206,6 +207,12 @@ def observe_c01(scn: dict) -> dict | None:
     tc = [p for p in pts if not p["default"]]
     if len(tc) >= 2:
         df = _frame(c, tc)
+        # the state table is addressed by column NAME: the same frame with its columns reversed is the same input
+        dfr = df[list(reversed(list(df.columns)))]
+        a1, a2 = m.get_args_time_course(df), m.get_args_time_course(dfr)
+        if list(a1.columns) != list(a2.columns) or not np.allclose(a1.to_numpy(), a2[list(a1.columns)].to_numpy(), rtol=1e-12, atol=0):
+            return {"what": "get_args_time_course depends on the column order of the state table", "order": order}
+        df = dfr if scn["idx"] % 2 else df
         atc = m.get_args_time_course(df)
         ftc = m.get_fluxes_time_course(df)
         full = m.get_args_time_course(df)
